@@ -149,6 +149,8 @@ type RPCResult struct {
 	StartErr           error
 	HdrTarget          metadata.MD
 	TlrTarget          metadata.MD
+	HdrTarget0         metadata.MD // a second location, given first (what an interceptor's wrapper adds): every location is filled
+	TlrTarget0         metadata.MD
 	PeerTarget         peer.Peer
 	ChanTarget         grpctunnel.TunnelChannel
 	CallerCtx          context.Context
@@ -522,15 +524,25 @@ func (h *hstream) exec(actor string, ops []Op) (bool, error) {
 		case OpSetHeader, OpSendHeader:
 			evInvoke(h.rpc, actor, op.Kind, 0, 0)
 			var err error
+			given := op.MD.Copy()
 			if op.Kind == OpSetHeader {
-				err = grpc.SetHeader(h.ctx, op.MD.Copy())
+				err = grpc.SetHeader(h.ctx, given)
 			} else {
-				err = grpc.SendHeader(h.ctx, op.MD.Copy())
+				err = grpc.SendHeader(h.ctx, given)
+			}
+			if given != nil && h.rpc%2 == 1 {
+				// the handler goes on using its own map (to build the trailers,
+				// say): what it set at the time of the call is what counts
+				touch.Mutate(given, "CHANGED-AFTER-THE-CALL-", h.rpc)
 			}
 			evReturn(h.rpc, actor, op.Kind, 0, &OpResult{Err: err, MD: op.MD})
 		case OpSetTrailer:
 			evInvoke(h.rpc, actor, op.Kind, 0, 0)
-			err := grpc.SetTrailer(h.ctx, op.MD.Copy())
+			given := op.MD.Copy()
+			err := grpc.SetTrailer(h.ctx, given)
+			if given != nil && h.rpc%2 == 1 {
+				touch.Mutate(given, "CHANGED-AFTER-THE-CALL-", h.rpc)
+			}
 			evReturn(h.rpc, actor, op.Kind, 0, &OpResult{Err: err, MD: op.MD})
 		case OpSleep:
 			evInvoke(h.rpc, actor, OpSleep, 0, int(op.D))
@@ -674,10 +686,18 @@ func (w *World) RunCaller(parent context.Context, cc grpc.ClientConnInterface, p
 	}()
 
 	var opts []grpc.CallOption
+	// every other plan passes two locations of a kind
+	two := p.ID%2 == 0
 	if p.OptHeader {
+		if two {
+			opts = append(opts, grpc.Header(&res.HdrTarget0))
+		}
 		opts = append(opts, grpc.Header(&res.HdrTarget))
 	}
 	if p.OptTrailer {
+		if two {
+			opts = append(opts, grpc.Trailer(&res.TlrTarget0))
+		}
 		opts = append(opts, grpc.Trailer(&res.TlrTarget))
 	}
 	if p.OptPeer {
@@ -717,7 +737,8 @@ func (w *World) RunCaller(parent context.Context, cc grpc.ClientConnInterface, p
 				r.Got = trunc(resp.Value, 64)
 			}
 		}
-		r.Extra = map[string]any{"hdr_target": touch.LoadMD(&res.HdrTarget), "tlr_target": touch.LoadMD(&res.TlrTarget), "peer_target": peerString(&res.PeerTarget), "chan_target": touch.Load(&res.ChanTarget)}
+		r.Extra = map[string]any{"hdr_target": touch.LoadMD(&res.HdrTarget), "tlr_target": touch.LoadMD(&res.TlrTarget), "peer_target": peerString(&res.PeerTarget), "chan_target": touch.Load(&res.ChanTarget),
+			"hdr_target0": touch.LoadMD(&res.HdrTarget0), "tlr_target0": touch.LoadMD(&res.TlrTarget0), "two_targets": two}
 		evReturn(p.ID, "c", OpInvoke, 0, r)
 		return
 	}
@@ -813,6 +834,7 @@ func (c *cstream) recvOne(actor string) (bool, error) {
 		// between): trailers and option targets must be there.
 		r := c.p.Res
 		res.Extra = map[string]any{"trailer": copyMD(c.cs.Trailer()), "hdr_target": touch.LoadMD(&r.HdrTarget), "tlr_target": touch.LoadMD(&r.TlrTarget),
+			"hdr_target0": touch.LoadMD(&r.HdrTarget0), "tlr_target0": touch.LoadMD(&r.TlrTarget0), "two_targets": c.p.ID%2 == 0,
 			"peer_target": peerString(&r.PeerTarget), "chan_target": touch.Load(&r.ChanTarget)}
 	}
 	evReturn(c.p.ID, actor, OpRecv, idx, res)
